@@ -1,6 +1,55 @@
 import DriverOps.Common
-/- driver ops with prefix "num." (owned by the NumLit model) -/
+/- driver ops with prefix "num." (owned by the NumLit model)
+
+  num.num       {"s": text}                                   -> NumVal
+  num.item      {"kind": "metadata"|"params"|"curves", "name", "value"}            -> NumVal
+  num.fields    {"kind": ..., "descrFirst": bool, "name", "unit", "value", "descr"} -> [name, unit, NumVal, descr]
+  num.brackets  {"s": text}                                   -> text        (strip_brackets)
+  num.commasub  {"s": text}                                   -> text        (the comma substitution)
+  num.plain     {"s": text}                                   -> bool        (the guard regex, no strip)
+  num.udigits   {}                                            -> [zero code points of the \d class]
+
+  NumVal = ["int", "<decimal>"] | ["flt", neg, "<mantissa decimal>", exp10] | ["str", text]
+  (integers travel as decimal strings: they can exceed the precision of a JSON double)
+-/
 open Lean Lasio
 
-def handleNumLit (op : String) (j : Json) : Except String Json :=
-  throw s!"op {op} not implemented"
+def jintStr (i : Int) : Json := Json.str (toString i)
+
+def jNumVal : NumVal → Json
+  | .int i => Json.arr #[Json.str "int", jintStr i]
+  | .flt n m e => Json.arr #[Json.str "flt", Json.bool n, Json.str (toString m), jintStr e]
+  | .str s => Json.arr #[Json.str "str", jstr s]
+
+def handleNumLit (op : String) (j : Json) : Except String Json := do
+  match op with
+  | "num.num" => pure (jNumVal (num (← fldS j "s")))
+  | "num.item" =>
+    let kind ← (← fld j "kind").getStr?
+    let name ← fldS j "name"
+    let value ← fldS j "value"
+    match kind with
+    | "metadata" => pure (jNumVal (metadataValue name value))
+    | "params" => pure (jNumVal (paramsValue value))
+    | "curves" => pure (jNumVal (curvesValue value))
+    | _ => throw s!"num.item: unknown kind {kind}"
+  | "num.fields" =>
+    let kind ← (← fld j "kind").getStr?
+    let name ← fldS j "name"
+    let unit ← fldS j "unit"
+    let value ← fldS j "value"
+    let descr ← fldS j "descr"
+    let df := match j.getObjVal? "descrFirst" with
+      | .ok (Json.bool b) => b
+      | _ => false
+    let it ← match kind with
+      | "metadata" => pure (metadataItem df name unit value descr)
+      | "params" => pure (paramsItem name unit value descr)
+      | "curves" => pure (curvesItem name unit value descr)
+      | _ => throw s!"num.fields: unknown kind {kind}"
+    pure (Json.arr #[jstr it.name, jstr it.unit, jNumVal it.value, jstr it.descr])
+  | "num.brackets" => pure (jstr (stripBrackets (← fldS j "s")))
+  | "num.commasub" => pure (jstr (commaSub (← fldS j "s")))
+  | "num.plain" => pure (Json.bool (isPlainDec (← fldS j "s")))
+  | "num.udigits" => pure (jlist jnat uniDigitZeros)
+  | _ => throw s!"op {op} not implemented"
